@@ -494,7 +494,14 @@ static void case_infer(Tape &t, Ctx &cx)
         if (!reg_once)
         {
             free(fr.buf);
-            size_t nb = A_PID_FUZZY_BFUZZ(N);
+            // the size macro with an expression as its argument, the way callers write it; it has to denote the documented size
+            size_t nb = A_PID_FUZZY_BFUZZ(ie.size() > iec.size() ? ie.size() : iec.size());
+            {
+                size_t na = N / 2, nbb = N - N / 2;
+                size_t doc = sizeof(unsigned int) * N * 2 + sizeof(a_real) * N * (2 + N);
+                VP_CHECK(cx, nb == doc && A_PID_FUZZY_BFUZZ(na + nbb) == doc && A_PID_FUZZY_BFUZZ(N | 0) == doc && A_PID_FUZZY_BFUZZ((N)) == doc, "infer:bfuzz_size_macro",
+                         "A_PID_FUZZY_BFUZZ gives %zu / %zu / %zu bytes for expressions that evaluate to %zu; the documented size is %zu", nb, (size_t)A_PID_FUZZY_BFUZZ(na + nbb), (size_t)A_PID_FUZZY_BFUZZ(N | 0), N, doc);
+            }
             fr.buf = malloc(nb ? nb : 1);
             memset(fr.buf, 0xA5, nb);
             a_pid_fuzzy_set_bfuzz(&ctx, fr.buf, N);
